@@ -469,6 +469,12 @@ func RunRebuild(s *Scen, r *vk.Rand, a, b int, bin, base string, cycles int) {
 		return
 	}
 	for cyc := 0; cyc < cycles && !s.Dead; cyc++ {
+		// every cycle starts from a healthy volume (a replica can be knocked out again right after its promotion, e.g.
+		// by a late event of its previous attachment: it is then rebuilt once more)
+		if cl.CountMode(types.RW) < rf && !cl.WaitRW(rf, 240*time.Second) {
+			s.inconclusive("cycle %d: the volume did not get back to %d RW replicas within 240 s: %v", cyc, rf, cl.Modes())
+			return
+		}
 		x := cl.Reps[r.Intn(rf)]
 		nw := r.Range(1, 3)
 		pause := []time.Duration{0, 200 * time.Microsecond, 3 * time.Millisecond}[r.Intn(3)]
